@@ -60,6 +60,8 @@ func buildFree(spec *graphSpec, prefix, trace string, rnd *h.Rand, stages map[st
 				return nil, err
 			}
 			st.Pipeline = g
+		} else if sp.SameAs != "" {
+			// includes the very graph object another stage of this pipeline includes (set below)
 		} else {
 			code := 0
 			if sp.Outcome == oFail || sp.Outcome == oFailAllow {
@@ -73,6 +75,11 @@ func buildFree(spec *graphSpec, prefix, trace string, rnd *h.Rand, stages map[st
 		}
 		stages[full] = st
 		list = append(list, st)
+	}
+	for i := range spec.Stages {
+		if sa := spec.Stages[i].SameAs; sa != "" {
+			stages[prefix+spec.Stages[i].Name].Pipeline = stages[prefix+sa].Pipeline
+		}
 	}
 	return scheduler.NewExecutionGraph(list...)
 }
